@@ -1,7 +1,7 @@
 (* Dispatch.v -- single entry point of the executable model: opcode * argument -> result.
    Used identically by the extracted OCaml driver and by in-Coq vm_compute samples. *)
 From Coq Require Import List ZArith.
-From Yv Require Import Base.Sx Run.RunSym Run.RunGeom.
+From Yv Require Import Base.Sx Run.RunSym Run.RunGeom Run.RunCache.
 Import ListNotations.
 Open Scope Z_scope.
 
@@ -14,6 +14,7 @@ Definition run (op : Z) (arg : sx) : sx :=
   | 12 => run_ruc arg
   | 13 => run_special arg
   | 14 => run_lattice arg
+  | 20 => run_lru arg
   | _ => sErr 999
   end.
 
